@@ -351,7 +351,7 @@ func c12Judge(text string, env *numgen.Env, cc *command.Compiler) (out c12Outcom
 
 func TestC12(t *testing.T) {
 	c := evid.New("C12")
-	c.Rule = "generators: (0) revisit: a typed program extended by 2-4 statements that save (all / an amount), credit and debit one and the same account and asset; (1) typed programs loosened at the AST level (any expression in any position, portions that do not add up, unbounded sources anywhere, save/print/fail, one designation -- literal, plain variable, account looked up from metadata -- named several times in one ordered source, extra or duplicated variables with meta/balance origins) with loosened environments (missing / extraneous / malformed bindings and metadata, negative and huge balances); (2) token-level mutation of program text (delete, duplicate, swap, replace by hostile tokens incl. CR, NUL, multi-byte runes, huge numbers, comment markers; truncate); (3) splices of two programs. Oracle: no panic in compile / SetVarsFromJSON / ResolveResources / ResolveBalances / Run nor in rendering the returned error; termination within a watchdog; A-B-A: the same input gives the same outcome after an unrelated script ran through the shared compilation cache, and the unrelated script is unaffected; a quarter of the inputs are also submitted to a long-lived Commander (model store with the history left by the earlier inputs; a third of these runs carry an idempotency key drawn from a pool mixing used and fresh keys, some as previews, and are surrounded by keyed metadata writes and reverts drawing from the same pool, so keys meet log entries of every kind): no panic, and a plain transaction still commits afterwards; 4% of the cases are concurrent histories on the real engine under the simulator's scheduler (all kinds of writes, shared keys and references, previews, one restart): no request may panic. Non-trivial = the text passes the parser and compiler (the VM stages are reached); distinct by script text + environment."
+	c.Rule = "generators: (0) revisit: a typed program extended by 2-4 statements that save (all / an amount), credit and debit one and the same account and asset; (1) typed programs loosened at the AST level (any expression in any position, portions that do not add up, unbounded sources anywhere, save/print/fail, one designation -- literal, plain variable, account looked up from metadata -- named several times in one ordered source, extra or duplicated variables with meta/balance origins) with loosened environments (missing / extraneous / malformed bindings and metadata, negative and huge balances); (2) token-level mutation of program text (delete, duplicate, swap, replace by hostile tokens incl. CR, NUL, multi-byte runes, huge numbers, comment markers; truncate); (3) splices of two programs; (4) wide programs naming 120-400 distinct accounts, amounts and keys (around 128 and 256 in particular). Oracle: no panic in compile / SetVarsFromJSON / ResolveResources / ResolveBalances / Run nor in rendering the returned error; termination within a watchdog; A-B-A: the same input gives the same outcome after an unrelated script ran through the shared compilation cache, and the unrelated script is unaffected; a quarter of the inputs are also submitted to a long-lived Commander (model store with the history left by the earlier inputs; a third of these runs carry an idempotency key drawn from a pool mixing used and fresh keys, some as previews, and are surrounded by keyed metadata writes and reverts drawing from the same pool, so keys meet log entries of every kind): no panic, and a plain transaction still commits afterwards; 4% of the cases are concurrent histories on the real engine under the simulator's scheduler (all kinds of writes, shared keys and references, previews, one restart): no request may panic. Non-trivial = the text passes the parser and compiler (the VM stages are reached); distinct by script text + environment."
 	c.Assumptions = []string{"a watchdog expiry (20 s, re-run alone with 60 s) is a hang only if it repeats; a single expiry is counted as discarded"}
 	cfg := numgen.GenCfg{MaxDepth: 2, MaxStmts: 3}
 	cc := command.NewCompiler(64)
@@ -387,7 +387,10 @@ func TestC12(t *testing.T) {
 			return
 		}
 		cs := numgen.GenTyped(rt, cfg)
-		mode := rapid.SampledFrom([]string{"typed", "loose-ast", "loose-ast", "loose-ast", "loose-env", "token-mut", "token-mut", "splice", "deep", "revisit", "typed-binding"}).Draw(rt, "mode")
+		mode := rapid.SampledFrom([]string{"typed", "loose-ast", "loose-ast", "loose-ast", "loose-env", "token-mut", "token-mut", "splice", "deep", "revisit", "typed-binding", "wide"}).Draw(rt, "mode")
+		if mode == "wide" && rapid.IntRange(0, 3).Draw(rt, "wideKept") != 0 {
+			mode = "typed" // (wide programs are long: one case in 48)
+		}
 		text := cs.Text
 		switch mode {
 		case "loose-ast":
@@ -451,6 +454,23 @@ func TestC12(t *testing.T) {
 				cs.Prog.Stmts = append(cs.Prog.Stmts, extra...)
 			}
 			text = numgen.Render(cs.Prog, cs.Layout)
+		case "wide":
+			// many distinct things named in one program (accounts, amounts, keys): more than a byte can count,
+			// around the powers of two where an index may wrap
+			n := rapid.SampledFrom([]int{120, 127, 128, 129, 200, 255, 256, 257, 300, 400}).Draw(rt, "wideN")
+			var sb strings.Builder
+			shape := rapid.IntRange(0, 2).Draw(rt, "wideShape")
+			for i := 0; i < n; i++ {
+				switch shape {
+				case 0:
+					fmt.Fprintf(&sb, "send [USD %d] (\n source = @world\n destination = @w%d\n)\n", 1000+i, i)
+				case 1:
+					fmt.Fprintf(&sb, "send [USD %d] (\n source = @world\n destination = @w\n)\nset_tx_meta(\"k%d\", %d)\n", 1000+i, i, 5000+i)
+				default:
+					fmt.Fprintf(&sb, "send [USD 1] (\n source = @world\n destination = @w%d\n)\nset_account_meta(@w%d, \"k\", \"v%d\")\n", i, i, i)
+				}
+			}
+			text = sb.String()
 		case "deep":
 			depth := rapid.IntRange(10, 60).Draw(rt, "depth")
 			src := "@a"
